@@ -134,6 +134,12 @@ Proof.
   rewrite !len_cons. pose proof (len_nonneg t). cbn [at_endl]. lia.
 Qed.
 
+Lemma firstn_plus {A} a b (l : list A) : firstn (a + b) l = firstn a l ++ firstn b (skipn a l).
+Proof.
+  revert l. induction a as [|a IH]; intros l; [reflexivity|].
+  destruct l as [|x l]; [cbn; rewrite firstn_nil; reflexivity|]. cbn [Nat.add firstn skipn app]. f_equal. apply IH.
+Qed.
+
 (* --- the cursor's suffix ------------------------------------------------------------------------ *)
 Lemma suffix_wfl z : lx_wf z -> wfl (suffix z) /\ len (suffix z) = lx_len z - lpos z + 1.
 Proof.
